@@ -99,6 +99,60 @@ pub fn c03_sq10_weight2(seed: u64) -> Phase {
     }
 }
 
+/// Full capacity, systematically, on the two smallest sizes with k = 7 (12x12 and 8x18, n = 12, t = 3): every position
+/// triple (220) x every value triple over a 32-value subset that contains the single bits, 0xFF and the low powers of
+/// alpha (32^3), and every position pair x all 255^2 value pairs; codeword stage only. All singular cases of the
+/// locator search that three errors can produce on these sizes are met by construction, not by chance.
+pub fn c03_k7_full_capacity(seed: u64) -> Phase {
+    const VALS: [u8; 32] = [
+        1, 2, 4, 8, 16, 32, 64, 128, 0xFF, 0x2D, 0x5A, 0xB4, 0x45, 0x8A, 0x39, 0x72, 3, 5, 6, 7, 9, 0x0F, 0x11, 0x33, 0x55, 0x81, 0xAA, 0xC3, 0xE4, 0xF0, 0xFE, 0x7F,
+    ];
+    let sizes: [usize; 2] = [1, 24];
+    let n = 12u32;
+    let mut triples: Vec<(u32, u32, u32)> = Vec::new();
+    let mut pairs: Vec<(u32, u32)> = Vec::new();
+    for a in 0..n {
+        for b in a + 1..n {
+            pairs.push((a, b));
+            for c in b + 1..n {
+                triples.push((a, b, c));
+            }
+        }
+    }
+    const V3: u64 = 32 * 32 * 32;
+    const V2: u64 = 255 * 255;
+    let per_size = triples.len() as u64 * V3 + pairs.len() as u64 * V2;
+    let n3 = triples.len() as u64 * V3;
+    let make = move |_ctx: &Ctx, i: u64| -> Trace {
+        let si = sizes[(i / per_size) as usize];
+        debug_assert!(SIZES[si].n_total() == 12 && SIZES[si].k == 7);
+        let j = i % per_size;
+        let faults = if j < n3 {
+            let (a, b, c) = triples[(j / V3) as usize];
+            let r = j % V3;
+            vec![
+                Fault::new("cw_pair", Op::CwXor { pos: a, mask: VALS[(r / 1024) as usize] }),
+                Fault::new("cw_pair", Op::CwXor { pos: b, mask: VALS[((r / 32) % 32) as usize] }),
+                Fault::new("cw_pair", Op::CwXor { pos: c, mask: VALS[(r % 32) as usize] }),
+            ]
+        } else {
+            let j = j - n3;
+            let (a, b) = pairs[(j / V2) as usize];
+            let r = j % V2;
+            vec![
+                Fault::new("cw_pair", Op::CwXor { pos: a, mask: (r / 255 + 1) as u8 }),
+                Fault::new("cw_pair", Op::CwXor { pos: b, mask: (r % 255 + 1) as u8 }),
+            ]
+        };
+        Trace { prop: "C03".into(), producer: Producer::Raw { size: si, data: seeded_data(seed, si, 0) }, faults }
+    };
+    Phase {
+        source: Source::Sweep { name: "sweep_k7_weight3_and_weight2_codeword_stage_only".into(), prop: "C03".into(), make: Box::new(make) },
+        runs: per_size * 2,
+        wall_cap_s: 0,
+    }
+}
+
 /// Every single data-module flip of every size (pixel level, within the radius by construction).
 pub fn c03_single_data_pixel(seed: u64) -> Phase {
     let prefix = prefix_of(|s| (SIZES[s].n_total() * 8) as u64);
@@ -288,6 +342,47 @@ pub fn c09_sq10_weight3(seed: u64) -> Phase {
     Phase {
         source: Source::Sweep { name: "sweep_sq10_all_weight3_codeword_stage_only".into(), prop: "C09".into(), make: Box::new(make) },
         runs: total,
+        wall_cap_s: 0,
+    }
+}
+
+/// One error beyond the capacity, systematically, on 12x12 and 8x18 (n = 12, k = 7, t = 3): every position quadruple
+/// (495) x every value quadruple over 16 values (single bits, 0xFF, powers of alpha); codeword stage only.
+pub fn c09_k7_weight4(seed: u64) -> Phase {
+    const VALS: [u8; 16] = [1, 2, 4, 8, 16, 32, 64, 128, 0xFF, 0x2D, 0x5A, 0xB4, 0x45, 3, 0x55, 0xE4];
+    let sizes: [usize; 2] = [1, 24];
+    let n = 12u32;
+    let mut quads: Vec<(u32, u32, u32, u32)> = Vec::new();
+    for a in 0..n {
+        for b in a + 1..n {
+            for c in b + 1..n {
+                for d in c + 1..n {
+                    quads.push((a, b, c, d));
+                }
+            }
+        }
+    }
+    const V: u64 = 16 * 16 * 16 * 16;
+    let per_size = quads.len() as u64 * V;
+    let make = move |_ctx: &Ctx, i: u64| -> Trace {
+        let si = sizes[(i / per_size) as usize];
+        let j = i % per_size;
+        let (a, b, c, d) = quads[(j / V) as usize];
+        let r = j % V;
+        Trace {
+            prop: "C09".into(),
+            producer: Producer::Raw { size: si, data: seeded_data(seed, si, 0) },
+            faults: vec![
+                Fault::new("cw_pair", Op::CwXor { pos: a, mask: VALS[(r / 4096) as usize] }),
+                Fault::new("cw_pair", Op::CwXor { pos: b, mask: VALS[((r / 256) % 16) as usize] }),
+                Fault::new("cw_pair", Op::CwXor { pos: c, mask: VALS[((r / 16) % 16) as usize] }),
+                Fault::new("cw_pair", Op::CwXor { pos: d, mask: VALS[(r % 16) as usize] }),
+            ],
+        }
+    };
+    Phase {
+        source: Source::Sweep { name: "sweep_k7_weight4_codeword_stage_only".into(), prop: "C09".into(), make: Box::new(make) },
+        runs: per_size * 2,
         wall_cap_s: 0,
     }
 }
